@@ -201,12 +201,16 @@ def audit_axioms(pid, names):
 	"""#print axioms on every listed theorem; returns dict name -> list of axioms (or None if missing)."""
 	d = os.path.join(LEAN_DIR, '.lake', 'audit')
 	os.makedirs(d, exist_ok=True)
-	f = os.path.join(d, pid + '.lean')
+	f = os.path.join(d, '%s_%d.lean' % (pid, os.getpid()))          # one file per process: checks of one property may run side by side
 	with open(f, 'w') as fh:
 		fh.write('import StockpylModel\n')
 		for n in names:
 			fh.write('#print axioms %s\n' % n)
 	rc, out = run(['lake', 'env', 'lean', f], cwd=LEAN_DIR, timeout=1800)
+	try:
+		os.remove(f)
+	except OSError:
+		pass
 	res = {n: None for n in names}
 	# output format: "'name' depends on axioms: [a, b]" or "'name' does not depend on any axioms"
 	for m in re.finditer(r"'(\S+)' depends on axioms: \[([^\]]*)\]", out):
@@ -500,13 +504,28 @@ def history_check(rep, stream, calls, theorem=None, rtol=1e-9):
 	import importlib, pickle, subprocess, warnings
 	from concurrent.futures import ThreadPoolExecutor
 	here = []
+	def plain(x):
+		"""repr of the plain-data arguments (numbers, strings, lists, tuples, dicts, arrays); objects are skipped."""
+		import numpy as np
+		if isinstance(x, (list, tuple)):
+			return [plain(e) for e in x]
+		if isinstance(x, dict):
+			return {repr(k): plain(v) for k, v in x.items()}
+		if isinstance(x, np.ndarray):
+			return x.tolist()
+		return x if isinstance(x, (int, float, str, bool, type(None))) else None
 	for mod, fn, args, kw in calls:
+		before = repr((plain(args), plain(kw)))
 		try:
 			with warnings.catch_warnings():
 				warnings.simplefilter('ignore')
 				here.append(('ok', getattr(importlib.import_module(mod), fn)(*args, **kw)))
 		except Exception as e:
 			here.append(('error', type(e).__name__))
+		after = repr((plain(args), plain(kw)))
+		if before != after:
+			rep.diff(stream, '%s.%s rewrote an argument in place: %s -> %s' % (mod, fn, before[:300], after[:300]), {'call': [mod, fn, before]}, py=after[:400], model=before[:400],
+					 oracle=True, theorem=theorem)
 	def fresh(c):
 		p = subprocess.run([sys.executable, '-c', _FRESH_SCRIPT, os.path.join(REPO, 'src')], input=pickle.dumps(c), capture_output=True, timeout=600)
 		if p.returncode != 0:
